@@ -1059,12 +1059,19 @@ void psAddUserExtToSession(ssl_t *ssl,
 {
     if (ext == NULL)
     {
-        ssl->userExt = NULL;
+        /* No new extensions given (e.g. the DTLS ClientHello that answers
+           a HelloVerifyRequest): keep the copy made earlier, it is freed
+           with the session. */
         return;
     }
     if (ssl->userExt == ext)
     {
         return;
+    }
+    if (ssl->userExt != NULL)
+    {
+        matrixSslDeleteHelloExtension(ssl->userExt);
+        ssl->userExt = NULL;
     }
     ssl->userExt = psMalloc(ssl->hsPool, sizeof(tlsExtension_t));
     psCopyHelloExtension(ssl->userExt, ext);
